@@ -177,6 +177,7 @@ func addIntrinsics(P *Program) {
 		i.gomaxprocs = args[0]
 		return nil
 	})
+	reg("Settle", func(i *interpreter, fr *frame, fn *ssa.Function, args []value) value { return nil })
 	reg("Symbolic", func(i *interpreter, fr *frame, fn *ssa.Function, args []value) value { return true })
 	// Try runs f and reports whether it panicked (target panics only).
 	reg("Try", func(i *interpreter, fr *frame, fn *ssa.Function, args []value) (res value) {
